@@ -77,6 +77,9 @@ Definition import_prog (data : list Z) : list act := Create :: map Write data ++
 (* DataIterator(from_string=True) first copies the text into a temp file, which is removed together
    with the iterator once the import is over *)
 Definition from_string_prog (text data : list Z) : list act := Create :: map Write text ++ import_prog data ++ [Unlink].
+(* a GTF import with both kinds of inference switched off derives nothing and uses no intermediate file *)
+Definition noinfer_prog : list act := [].
+Definition from_string_noinfer_prog (text : list Z) : list act := Create :: map Write text ++ [Unlink].
 (* before the repair of finding F15 nothing removed that copy *)
 Definition from_string_prog_F15 (text data : list Z) : list act := Create :: map Write text ++ import_prog data.
 
